@@ -67,7 +67,7 @@ def gen_blocks(R, idx: int) -> Tuple[List[Dict[str, Any]], Dict[str, Any]]:
             blk.setdefault("private_members", []).append("int " + l.split("(")[0] + ";")
         blocks.append(blk)
     mode = R.choice(["plain", "plain", "plain", "dup_identical", "dup_conflict", "dup_content_other_name", "unknown_field", "shared_line", "same_file_body_and_header",
-                     "unknown_field_only", "name_only_twin", "case_variants", "dup_reordered", "dup_repeated_line"]) if nb else "plain"
+                     "unknown_field_only", "name_only_twin", "case_variants", "dup_reordered", "dup_repeated_line", "same_basename_includes"]) if nb else "plain"
     expect_error = None
     if mode == "dup_identical":
         b = R.choice(blocks)
@@ -125,6 +125,12 @@ def gen_blocks(R, idx: int) -> Tuple[List[Dict[str, Any]], Dict[str, Any]]:
         b1, b2 = R.choice(blocks), R.choice(blocks)
         b1["body_includes"] = list(b1.get("body_includes", [])) + [line]
         b2["header_includes"] = list(b2.get("header_includes", [])) + [line]
+    elif mode == "same_basename_includes":
+        # different headers that share a file name (one per package directory): both are asked for
+        f = R.choice(["body_includes", "header_includes", "body_includes"])
+        b1, b2 = R.choice(blocks), R.choice(blocks)
+        b1[f] = list(b1.get(f, [])) + [f"PkgT{idx}xA/Helpers.h"]
+        b2[f] = list(b2.get(f, [])) + [f"PkgT{idx}xB/interface/Helpers.h", f"PkgT{idx}xC/Helpers.h"]
     elif mode == "shared_line":
         f = R.choice(FIELDS)
         n += 1
@@ -235,11 +241,39 @@ QUERY = {"atlas": "Select({ds}, lambda e: e.EventInfo('EventInfo').runNumber())"
          "cms_miniaod": "Select({ds}, lambda e: e.Muons('A').Count())"}
 
 
-def make_query(backend: str, blocks) -> str:
-    src = "ds"
-    for b in blocks:
-        src = f"MetaData({src}, {b!r})"
-    return QUERY[backend].format(ds=src)
+def make_query(backend: str, blocks, placement=None, extra_md=()) -> str:
+    """placement None: every block on the dataset; else per block one of 'ds', 'after_where', 'inner_collection', 'discarded_element'
+    (metadata may ride on any sub-expression of the query, also on a tuple element the rest of the query never uses).
+    extra_md: other metadata (a C++ function, a collection declaration) attached to the dataset BEFORE / AFTER the blocks."""
+    if not placement or all(p == "ds" for p in placement):
+        src = "ds"
+        for m in [m for m in extra_md if m.get("_where") == "inside"]:
+            src = f"MetaData({src}, { {k: v for k, v in m.items() if k != '_where'}!r})"
+        for b in blocks:
+            src = f"MetaData({src}, {b!r})"
+        for m in [m for m in extra_md if m.get("_where") != "inside"]:
+            src = f"MetaData({src}, { {k: v for k, v in m.items() if k != '_where'}!r})"
+        return QUERY[backend].format(ds=src)
+    C = {"atlas": "Jets", "cms_aod": "Muons", "cms_miniaod": "Muons"}[backend]
+
+    def wrap(expr, where):
+        for b, pl in zip(blocks, placement):
+            if pl == where:
+                expr = f"MetaData({expr}, {b!r})"
+        return expr
+    q = wrap("ds", "ds")
+    if "after_where" in placement:
+        q = wrap(f"Where({q}, lambda e: e.{C}('W').Count() >= 0)", "after_where")
+    ev = "e"
+    if "discarded_element" in placement:
+        carrier = wrap("e0", "discarded_element") + f".{C}('Carrier')"
+        q = f"Select({q}, lambda e0: ({carrier}, e0))"
+        ev = "t[1]"
+        lam = "t"
+    else:
+        lam = "e"
+    inner = wrap(ev, "inner_collection") + f".{C}('A')"
+    return f"Select({q}, lambda {lam}: {inner}.Count())"
 
 
 def contract_monitor(args, phase, state):
@@ -298,8 +332,25 @@ def run(ctx: Ctx) -> int:
             R = ctx.rng("c14", i)
             backend = R.choice(["atlas", "atlas", "atlas", "cms_aod", "cms_miniaod"])
             blocks, exp = gen_blocks(R, i)
+            if blocks and R.random() < 0.2:
+                # blocks riding on other parts of the query than the dataset
+                exp["placement"] = [R.choice(["ds", "after_where", "inner_collection", "discarded_element"]) for _ in blocks]
+            elif blocks and R.random() < 0.15:
+                # a block that shares its NAME with another kind of declaration of the same query (a C++ function, an event collection):
+                # names of different kinds of metadata have nothing to do with one another
+                nm = blocks[0]["name"]
+                kind = R.choice(["function", "collection"])
+                if kind == "function":
+                    m = {"metadata_type": "add_cpp_function", "name": nm, "include_files": [], "arguments": ["x"], "code": ["auto result = x;"], "return_type": "double"}
+                else:
+                    m = {"atlas": {"metadata_type": "add_atlas_event_collection_info", "name": nm, "include_files": ["xAODJet/JetContainer.h"], "container_type": "xAOD::JetContainer", "element_type": "xAOD::Jet", "contains_collection": True},
+                         "cms_aod": {"metadata_type": "add_cms_aod_event_collection_info", "name": nm, "include_files": ["DataFormats/MuonReco/interface/Muon.h"], "container_type": "reco::MuonCollection", "element_type": "reco::Muon", "contains_collection": True, "element_pointer": False},
+                         "cms_miniaod": {"metadata_type": "add_cms_miniaod_event_collection_info", "name": nm, "include_files": ["DataFormats/PatCandidates/interface/Muon.h"], "container_type": "pat::MuonCollection", "element_type": "pat::Muon", "contains_collection": True, "element_pointer": False}}[backend]
+                m["_where"] = R.choice(["inside", "outside"])
+                exp["extra_md"] = [m]
+                exp["mode"] = exp["mode"] + "+name_shared_with_" + kind
             cases.append((backend, blocks, exp))
-    reqs = [{"args": {"backend": b, "query": make_query(b, blocks), "out": str(ctx.scratch / f"p{i}"), "monitors": ["vf.props.c14:contract_monitor"]}}
+    reqs = [{"args": {"backend": b, "query": make_query(b, blocks, exp.get("placement"), exp.get("extra_md", ())), "out": str(ctx.scratch / f"p{i}"), "monitors": ["vf.props.c14:contract_monitor"]}}
             for i, (b, blocks, exp) in enumerate(cases)]
     # every 12th case is driven through "transform twice, then write" on one executor
     for i, rq in enumerate(reqs):
